@@ -289,3 +289,26 @@ package reg
 //@   in ~/scheme/reg
 //@   infunc \)\.referrerListByAPI$
 //@   requires asked-with-the-previous-pages-next-link: link == $prevNext && r == caller.r && config == caller.config
+
+// C02 "a manifest obtained for a digest is returned only if its raw bytes hash to that digest" also
+// holds for what the manifest cache hands back (a hit is returned without any check): a fetched
+// manifest is stored under the digest of its OWN descriptor - computed by manifest.New from the
+// raw bytes - never under a digest taken from a response header.
+//@ callsite (*~/internal/cache.Cache[k, v]).Set(key, val)
+//@   prop C02
+//@   name cacheMan.Set/ManifestGet
+//@   in ~/scheme/reg
+//@   infunc \)\.ManifestGet$
+//@   requires stored-under-its-own-digest: key.Digest == string($ret(GetDescriptor, 0).Digest) && key.Repository == caller.r.Repository && key.Registry == caller.r.Registry
+//@ callsite (~/types/ref.Ref).SetDigest(digest)
+//@   prop C02
+//@   name SetDigest/cache-key
+//@   in ~/scheme/reg
+//@   infunc \)\.ManifestGet$
+//@   requires the-computed-or-the-requested-digest: recv == caller.r && (digest == caller.r.Digest || digest == string($ret(GetDescriptor, 0).Digest))
+//@ callsite (~/types/manifest.Manifest).GetDescriptor()
+//@   prop C02
+//@   name GetDescriptor/cache-key
+//@   in ~/scheme/reg
+//@   infunc \)\.ManifestGet$
+//@   requires of-the-manifest-just-built: recv == caller.m__2
